@@ -156,7 +156,10 @@ CLAIMED = {
             "any number of operands (rank strictly increases; the needed alphabet facts are checked by decide on the "
             "generated LETTERS/_pos_letter).",
             NOTE_COMMON, "5 C15"),
-    "C16": ("Lean 4 proof (propagate = boolean evaluation on visible nodes; class tuples by case analysis on generated data)" + T_CORR,
+    "C16": ("Lean 4 proof (propagate = boolean evaluation on visible nodes; class tuples by case analysis on generated data) + "
+            "MatchingPropagator._propagate (per class, both default operations, the loop over the operands as a fold) and "
+            "_status_from_parent translated from the source by symbolic execution (tools/pysym.py; Props/GenPropagate: the "
+            "model's propagate is the translated code)" + T_CORR,
             "Theorem propagate_correct: under the property's hypotheses, for both default operations and every truth "
             "assignment, a visible node is in the matching set iff it evaluates to true, in the other set iff false, each "
             "exactly once. Theorem propagate_correct_reported: the same conclusion when the names of parenthesised "
